@@ -228,6 +228,52 @@ theorem lookupHN_of_unique (svcs : List Svc) (s : Svc) (hs : s ∈ svcs)
   obtain ⟨h1, h2, h3⟩ := lookupHN_mem svcs _ _ r hr
   rw [hr, huniq r h1 h2 h3]
 
+/-! ### `serviceentry_visibility.go` -/
+
+/-- **visibilityFor_spec**: the visibility resolved for a namespace is that of the FIRST policy all of
+    whose rules match the namespace labels, and the default when no policy matches (an unset
+    configuration is Public). -/
+theorem visibilityFor_spec (s : Sev) (nsl : List (String × String)) (v : SEVis) :
+    visibilityFor (some s) nsl = v ↔
+      (∃ pre p post, s.policies = pre ++ p :: post ∧ (∀ q ∈ pre, sevPolicyMatches nsl q = false) ∧
+        sevPolicyMatches nsl p = true ∧ p.vis = v) ∨
+      ((∀ q ∈ s.policies, sevPolicyMatches nsl q = false) ∧ s.dflt = v) := by
+  simp only [visibilityFor]
+  cases hf : s.policies.find? (sevPolicyMatches nsl) with
+  | some p =>
+    simp only
+    obtain ⟨hp, pre, post, heq, hpre⟩ := List.find?_eq_some_iff_append.mp hf
+    constructor
+    · intro hv
+      exact Or.inl ⟨pre, p, post, heq, fun q hq => by simpa using hpre q hq, hp, hv⟩
+    · rintro (⟨pre', p', post', heq', hpre', hp', hv⟩ | ⟨hall, _⟩)
+      · -- the first matching policy is unique
+        have : List.find? (sevPolicyMatches nsl) s.policies = some p' := by
+          rw [heq']
+          exact List.find?_eq_some_iff_append.mpr ⟨hp', pre', post', rfl, fun q hq => by simp [hpre' q hq]⟩
+        rw [hf] at this; cases this; exact hv
+      · have hm : p ∈ s.policies := List.mem_of_find?_eq_some hf
+        rw [hall p hm] at hp; cases hp
+  | none =>
+    simp only
+    have hall : ∀ q ∈ s.policies, sevPolicyMatches nsl q = false := by
+      intro q hq; simpa using List.find?_eq_none.mp hf q hq
+    constructor
+    · intro hv; exact Or.inr ⟨hall, hv⟩
+    · rintro (⟨pre, p, post, heq, _, hp, _⟩ | ⟨_, hv⟩)
+      · have : p ∈ s.policies := by rw [heq]; simp
+        rw [hall p this] at hp; cases hp
+      · exact hv
+
+theorem visibilityFor_unset (nsl : List (String × String)) : visibilityFor none nsl = .pub := rfl
+
+/-- all rules of a policy must match (AND), an empty rule list is a catch-all, a rule without a
+    usable namespace selector never matches -/
+example : sevPolicyMatches [("team", "a")] { vis := .ns, rules := [some [("team", "a")], some [("env", "b")]] } = false ∧
+    sevPolicyMatches [("team", "a")] { vis := .ns, rules := [some [("team", "a")], some []] } = true ∧
+    sevPolicyMatches [("team", "a")] { vis := .ns, rules := [] } = true ∧
+    sevPolicyMatches [("team", "a")] { vis := .ns, rules := [none] } = false := by decide
+
 /-! ### non-vacuity / corners -/
 
 /-- `.` is not `*`: a private service is visible in its namespace only. -/
